@@ -29,12 +29,21 @@ RULE = ("Histories against a real Input over a byte-transparent pty, recorded at
         "requests; thorough adds statement-level yield injection in input.py and counts distinct "
         "interleavings). Bursts of 1..4000 bytes built from whole keypresses, multi-byte units "
         "placed across offsets 1024/2048/3072; paste_threshold in {None, 1, 8, 1023, 5000}. "
+        "Further scenario families: a burst arriving behind 1-6 buffered, already-read keypresses "
+        "(unget / typed ahead) must still come back as one PasteEvent after them; a keypress whose "
+        "bytes arrive in 2-3 separate writes, with requests in between or the later pieces arriving "
+        "while a request is blocked (no exception, conservation); floods of 6-60 KB written by "
+        "another thread in pieces of 3..65536 bytes while requests run, the kernel cutting "
+        "characters where it likes (conservation); event objects that are falsy. "
         "distinct = distinct histories (by action script); non-trivial = at least one request "
         "returned something.")
 FLOOR = 60
 SHARDS = {"quick": 4, "thorough": 16}
 TIMEOUT = {"quick": 600, "thorough": 3000}
-ASSUMPTIONS = ["arrivals are whole keypresses; bursts <= 4000 bytes (pty line discipline buffers 4095)",
+ASSUMPTIONS = ["in the sequential/concurrent histories arrivals are whole keypresses and bursts <= 4000 bytes (pty line "
+               "discipline buffers 4095) so that the paste/segmentation expectations are exact; cut keypresses and larger "
+               "bursts are judged by conservation only (split and flood scenarios); a cut after the first byte of a "
+               "multi-byte character is returned as two keys (8-bit meta key first) - bytes conserved, naming not judged",
                "table sequences that are proper prefixes of longer ones are not generated as units (followed by a non-ASCII "
                "character they hit the recorded finding C03:prefix-then-undecodable-byte, which C03 also drives through Input)",
                "unget_bytes is only called when no stream byte is outstanding (ungot bytes are appended to the buffer and "
@@ -61,6 +70,11 @@ def classes():
 
         def __repr__(self):
             return "Ev(%s,%s)" % (self.src, self.i)
+
+        def __len__(self):
+            # a user's event type may be a container that is empty (hence falsy); it is still
+            # an event that was triggered and must be returned
+            return 0 if (self.i or 0) % 4 == 0 else 1
 
     class Sch(events.ScheduledEvent):
         def __init__(self, when):
@@ -355,8 +369,14 @@ def classify(case, mech, detail, hist):
             whens = [r["when"] for r in hist if r["k"] == "sched"]
             if len(set(whens)) < len(whens):
                 return "C08:equal-scheduled-times"
+        if exc[0] == "ValueError" and "identify key" in (exc[1] if len(exc) > 1 else "") and case.get("kind") in ("split", "flood"):
+            return "C08:keypress-split-across-arrivals"
         if exc[0] == "ValueError" and "identify key" in (exc[1] if len(exc) > 1 else "") and nonpaste_big(case, hist):
             return "C08:non-paste-path-does-not-refill"
+    if mech == "events":
+        missing = set(detail.get("triggered", ())) - set(detail.get("returned", ()))
+        if missing and all(i % 4 == 0 for i in missing):
+            return "C08:falsy-event-dropped"
     if mech in ("bytes", "single-key", "names") and nonpaste_big(case, hist):
         return "C08:non-paste-path-does-not-refill"
     return "C08:" + mech
@@ -392,6 +412,237 @@ def finish_history(ctx, case, hist, problems):
             first = False
         else:
             ctx.violation(m, case, None, detail, {"history_tail": tail})
+
+
+# ---------------------------------------------------------------- bursts behind buffered keys, split keypresses
+
+def gen_buffered(rng, R):
+    pt = rng.choice([1, 8, 8, 50])
+    how = rng.choice(["unget", "typed"])
+    if how == "unget":
+        pre = bytes(rng.choice(UNGET_ALPHABET) for _ in range(rng.randint(1, 6)))
+    else:
+        pre = bytes(rng.randrange(ord("a"), ord("z") + 1) for _ in range(rng.randint(2, min(6, max(2, pt)))))
+        if len(pre) > pt:
+            how, pre = "unget", bytes(rng.choice(UNGET_ALPHABET) for _ in range(len(pre)))
+    return {"kind": "buffered", "paste_threshold": pt, "how": how, "pre": pre,
+            "burst": burst(rng, R, rng.choice([pt + 1, pt + 5, 100, 400, 1000]))}
+
+
+def run_buffered(ctx, case):
+    """a burst that arrives while a few already-read, unambiguous keypresses are still buffered:
+    those come out singly, then the burst - read in one go - as one paste event"""
+    from curtsies import events
+    R = rig()
+    pt, pre, data = case["paste_threshold"], case["pre"], case["burst"]
+    R.pty.drain_slave()
+    inp = R.ci.Input(R.pty.stream, keynames="bytes", paste_threshold=pt)
+    hist, problems = [], []
+
+    def req():
+        t0 = time.monotonic()
+        try:
+            ret = describe(inp.send(0))
+        except Exception as ex:  # noqa
+            ret = ("raise", type(ex).__name__, str(ex)[:120])
+        hist.append({"k": "req", "timeout": 0, "t0": t0, "t1": time.monotonic(), "w0": 0, "w1": 0, "ret": ret})
+        return ret
+    try:
+        with inp:
+            rest = pre
+            if case["how"] == "unget":
+                inp.unget_bytes(pre)
+                hist.append({"k": "unget", "data": pre, "t": time.monotonic()})
+            else:
+                if not R.pty.feed(pre):
+                    ctx.inconclusive_because("pty did not deliver within 5 s")
+                    return
+                hist.append({"k": "write", "data": pre, "t": time.monotonic()})
+                ret = req()
+                if ret != ("key", pre[:1]):
+                    problems.append(("single-key", {"expected": pre[:1], "got": summarize(ret)}))
+                rest = pre[1:]
+            if not problems:
+                if not R.pty.feed(data):
+                    ctx.inconclusive_because("pty did not deliver within 5 s")
+                    return
+                hist.append({"k": "write", "data": data, "t": time.monotonic()})
+                for i in range(len(rest)):
+                    ret = req()
+                    if ret != ("key", rest[i:i + 1]):
+                        problems.append(("single-key", {"expected": rest[i:i + 1], "got": summarize(ret), "buffered_key": i}))
+                        break
+            if not problems:
+                seg = drive(events.get_key, [data], "utf-8", events.Keynames.BYTES)
+                ret = req()
+                if ret != ("paste", seg):
+                    problems.append(("paste-behind-buffered-keys", {"burst_len": len(data), "threshold": pt,
+                                                                    "buffered": len(rest), "how": case["how"],
+                                                                    "expected_keys": len(seg), "got": summarize(ret)}))
+            for _ in range(len(data) + 3):
+                if req()[0] in ("none", "raise"):
+                    break
+    except Exception as ex:  # noqa
+        problems.append(("raise", {"outside request": repr(ex)}))
+    problems += inputq.check(hist, drained=True)
+    finish_history(ctx, case, hist, problems)
+
+
+SPLIT_UNITS = [chr(c).encode("utf-8") for c in (0xE9, 0x416, 0x4E00, 0x20AC, 0x1F600, 0x10348, 0xFF25)] + \
+              [b"\x1b[1;5C", b"\x1b[23~", b"\x1b[3~", b"\x1b[15;2~", b"\x1bOP", b"\x1b[A", b"\x1b[1;3D"]
+
+
+def gen_split(rng, R):
+    u = rng.choice(SPLIT_UNITS)
+    ncuts = 1 if len(u) < 3 or rng.random() < .6 else 2
+    cuts = sorted(rng.sample(range(1, len(u)), min(ncuts, len(u) - 1)))
+    return {"kind": "split", "paste_threshold": rng.choice([None, 1, 8]),
+            "pre": burst(rng, R, rng.choice([0, 0, 1, 3, 20, 300])) if rng.random() < .6 else b"",
+            "unit": u, "cuts": cuts, "post": burst(rng, R, rng.choice([0, 0, 1, 5, 40])) if rng.random() < .6 else b"",
+            "between": [rng.choice([0, 0, 0.002, 0.01]) for _ in range(rng.randint(1, 4))],
+            "during_blocked": rng.random() < .5}
+
+
+def run_split(ctx, case):
+    """a keypress (multi-byte character / escape sequence) whose bytes arrive in two or three
+    separate writes with requests in between (sequentially, or the later pieces arriving while a
+    request is blocked): no request raises and every byte is returned exactly once, in order"""
+    R = rig()
+    u, cuts = case["unit"], case["cuts"]
+    pieces = [u[a:b] for a, b in zip([0] + cuts, cuts + [len(u)])]
+    pieces[0] = case["pre"] + pieces[0]
+    pieces[-1] = pieces[-1] + case["post"]
+    R.pty.drain_slave()
+    inp = R.ci.Input(R.pty.stream, keynames="bytes", paste_threshold=case["paste_threshold"])
+    hist, problems = [], []
+    lock = threading.Lock()
+
+    def req(to):
+        t0 = time.monotonic()
+        try:
+            ret = describe(inp.send(to))
+        except Exception as ex:  # noqa
+            ret = ("raise", type(ex).__name__, str(ex)[:120])
+        with lock:
+            hist.append({"k": "req", "timeout": to, "t0": t0, "t1": time.monotonic(), "w0": 0, "w1": 0, "ret": ret})
+        return ret
+
+    def later():
+        for p in pieces[1:]:
+            time.sleep(0.02)
+            with lock:
+                hist.append({"k": "write", "data": p, "t": time.monotonic()})
+            os.set_blocking(R.pty.master, True)
+            os.write(R.pty.master, p)
+    th = None
+    try:
+        with inp:
+            if not R.pty.feed(pieces[0]):
+                ctx.inconclusive_because("pty did not deliver within 5 s")
+                return
+            hist.append({"k": "write", "data": pieces[0], "t": time.monotonic()})
+            stop = False
+            if case["during_blocked"]:
+                # take what is whole first, then let the rest arrive while a request is blocked
+                for _ in range(len(pieces[0]) + 2):
+                    ret = req(0)
+                    if ret[0] in ("none", "raise"):
+                        stop = ret[0] == "raise"
+                        break
+                if not stop:
+                    th = threading.Thread(target=later)
+                    th.start()
+                    t_give_up = time.monotonic() + 1.0
+                    ret = req(1.0)
+                    th.join(5)
+                    last_write = max(r["t"] for r in hist if r["k"] == "write")
+                    if ret[0] == "none" and last_write < t_give_up - 0.3:
+                        problems.append(("blocked-while-deliverable", {"whole keypress arrived s before give-up":
+                                                                       round(t_give_up - last_write, 3)}))
+                    stop = ret[0] == "raise"
+            else:
+                for k, p in enumerate(pieces[1:]):
+                    for to in case["between"]:
+                        if req(to)[0] == "raise":
+                            stop = True
+                            break
+                    if stop:
+                        break
+                    if not R.pty.feed(p):
+                        ctx.inconclusive_because("pty did not deliver within 5 s")
+                        return
+                    hist.append({"k": "write", "data": p, "t": time.monotonic()})
+            idle = 0
+            for _ in range(len(b"".join(pieces)) + 6):
+                if stop:
+                    break
+                ret = req(0.002)
+                if ret[0] == "raise":
+                    break
+                idle = idle + 1 if ret[0] == "none" else 0
+                if idle >= 2:
+                    break
+    except Exception as ex:  # noqa
+        problems.append(("raise", {"outside request": repr(ex)}))
+    finally:
+        if th is not None:
+            th.join(5)
+    problems += inputq.check(hist, drained=True, concurrent=True)
+    finish_history(ctx, case, hist, problems)
+
+
+def run_flood(ctx, case):
+    """tens of kilobytes written by another thread while the requesting thread keeps asking:
+    the kernel hands the burst out in pieces of its own choosing (4095 bytes at most), so
+    characters and sequences are cut at arbitrary places; every byte comes back once, in order"""
+    R = rig()
+    rng = __import__("random").Random(case["seed"])
+    data = b""
+    while len(data) < case["size"]:
+        data += unit(rng, R) if case["mix"] else "€".encode("utf-8")
+    R.pty.drain_slave()
+    inp = R.ci.Input(R.pty.stream, keynames="bytes", paste_threshold=case["paste_threshold"])
+    hist, problems = [{"k": "write", "data": data, "t": time.monotonic()}], []
+
+    def writer():
+        os.set_blocking(R.pty.master, True)
+        view = memoryview(data)
+        wr = __import__("random").Random(case["seed"] + 1)
+        while view:
+            n = os.write(R.pty.master, view[:wr.choice(case.get("chunks") or [65536])])
+            view = view[n:]
+    th = threading.Thread(target=writer)
+    got = 0
+    try:
+        with inp:
+            th.start()
+            deadline = time.monotonic() + 60
+            idle = 0
+            while got < len(data) and idle < 3:
+                t0 = time.monotonic()
+                try:
+                    ret = describe(inp.send(0.3))
+                except Exception as ex:  # noqa
+                    ret = ("raise", type(ex).__name__, str(ex)[:120])
+                hist.append({"k": "req", "timeout": 0.3, "t0": t0, "t1": time.monotonic(), "w0": 0, "w1": 0, "ret": ret})
+                if ret[0] == "raise":
+                    break
+                got += sum(map(len, inputq.flatten_keys(ret)))
+                idle = idle + 1 if ret[0] == "none" else 0
+                if time.monotonic() > deadline:
+                    ctx.inconclusive_because("flood did not finish within 60 s")
+                    break
+    except Exception as ex:  # noqa
+        problems.append(("raise", {"outside request": repr(ex)}))
+    finally:
+        R.pty.drain_slave()
+        th.join(10)
+        os.set_blocking(R.pty.master, False)
+    problems += inputq.check(hist, drained=True, concurrent=True)
+    ctx.count("flood_bytes", len(data))
+    case = dict(case, kind="flood")
+    hist[0] = {"k": "write", "data": data[:16] + b"...", "t": hist[0]["t"]}
+    finish_history(ctx, case, hist, [(m, d) for m, d in problems])
 
 
 # ---------------------------------------------------------------- name modes (condition 7)
@@ -733,6 +984,12 @@ def run_case(ctx, case):
         run_names(ctx, case)
     elif case["kind"] == "conc":
         run_conc(ctx, case)
+    elif case["kind"] == "buffered":
+        run_buffered(ctx, case)
+    elif case["kind"] == "flood":
+        run_flood(ctx, case)
+    elif case["kind"] == "split":
+        run_split(ctx, case)
 
 
 def run(ctx):
@@ -749,6 +1006,17 @@ def run(ctx):
         run_names(ctx, {"kind": "names", "mode": rng.choice(["curtsies", "curses", "bytes"]),
                         "paste_threshold": rng.choice(THRESHOLDS), "bursts": [burst(rng, R, s) for s in sizes]})
         ctx.count("name_mode_histories")
+    for _ in range(ctx.share(160 if quick else 6000)):
+        run_buffered(ctx, gen_buffered(rng, R))
+        ctx.count("bursts_behind_buffered_keys")
+    for _ in range(ctx.share(200 if quick else 8000)):
+        run_split(ctx, gen_split(rng, R))
+        ctx.count("split_keypress_histories")
+    for i in range(ctx.share(8 if quick else 400)):
+        run_flood(ctx, {"kind": "flood", "size": rng.choice([6000, 20000, 60000]), "mix": i % 2 == 1,
+                        "chunks": rng.choice([[4096], [4096], [1000, 4096, 5000], [3, 50, 700, 4096, 65536], [65536]]),
+                        "paste_threshold": rng.choice([None, 8, 8]), "seed": rng.randrange(1 << 30)})
+        ctx.count("floods")
     yields = inject.Yields(0, p=0.08)
     yields.install()
     try:
